@@ -396,10 +396,49 @@ def oracle_fresh(c):
     return {"nt": True, "cls": [f"n{c['n']}b{c['batch']}"]}
 
 
+# ------------------------------------------------------------------------------ batch membership (the helper behind "re-drawn in every iteration")
+def gen_membership():
+    from hypothesis import strategies as st
+
+    @st.composite
+    def g(draw):
+        n = draw(st.integers(2, 40))
+        b = draw(st.one_of(st.integers(1, n), st.integers(max(1, n // 2), n), st.just(n - 1 if n > 2 else 1)))
+        return {"n": n, "batch": b, "seed": draw(st.integers(0, 2**20))}
+
+    return g()
+
+
+def oracle_membership(c):
+    """Every set of batches drawn for one iteration is a family of n // b disjoint batches of b distinct observations, and over 48 keys
+    (= 48 iterations with a carried key) every observation is a member at least once and the member set is not always the same when
+    b does not divide n (chance of a false alarm < n * 2^-48)."""
+    from liesel.goose import optim as _optim
+
+    f = getattr(_optim, "_generate_batch_indices", None)
+    if f is None:
+        return {"nt": False, "cls": ["helper-missing"]}
+    n, b = c["n"], c["batch"]
+    seen, member_sets = np.zeros(n, dtype=int), set()
+    for i in range(48):
+        idx = np.asarray(f(jax.random.PRNGKey(c["seed"] + i), n, b))
+        require(idx.shape == (n // b, b), "batch_membership:shape", lambda: f"n={n} batch={b}: shape {idx.shape}")
+        flat = idx.reshape(-1)
+        require(len(set(flat.tolist())) == flat.size and flat.min() >= 0 and flat.max() < n, "batch_membership:not-disjoint-observations", lambda: f"n={n} batch={b}: {idx.tolist()}")
+        seen[flat] += 1
+        member_sets.add(tuple(sorted(flat.tolist())))
+    require(bool(np.all(seen > 0)), "batch_membership:observation-never-drawn", lambda: f"n={n} batch={b} seed={c['seed']}: observations {np.where(seen == 0)[0].tolist()} in no batch over 48 keys")
+    if n % b:
+        require(len(member_sets) > 1, "batch_membership:same-members-for-every-key", lambda: f"n={n} batch={b} seed={c['seed']}")
+    return {"nt": bool(n % b), "cls": ["divides" if n % b == 0 else "remainder", "one-batch" if n // b == 1 else "several-batches"]}
+
+
 SUBS = [
     Sub("stopper_exhaustive", oracle_stopper_case, run=run_stopper_exhaustive, what="all histories over a dyadic alphabet x i x patience x tolerances"),
     Sub("stopper_floats", oracle_stopper_floats, gen=gen_stopper_floats, n={"quick": 300, "thorough": 20000}, what="Hypothesis float histories"),
     Sub("end_to_end", oracle_e2e, gen=gen_e2e, n={"quick": 64, "thorough": 600}, shrink_calls=12, min_per_shard=3, what="optim_flat invariants"),
+    Sub("batch_membership", oracle_membership, gen=gen_membership, n={"quick": 160, "thorough": 3000}, shrink_calls=40,
+        what="batches drawn per iteration: disjoint, right shape, every observation drawn over 48 keys, members vary when batch size does not divide n"),
     Sub("fresh_minibatches", oracle_fresh, gen=gen_fresh, n={"quick": 4, "thorough": 40}, shrink={"quick": False, "thorough": False}, min_per_shard=1,
         what="every observation influences the fit when batch size does not divide n"),
 ]
